@@ -544,7 +544,15 @@ func (c *client) receive(r io.Reader) (err error) {
 	// Here we know for sure that we got a response for rpc we asked.
 	// It's our responsibility to deliver the response or error to the
 	// caller as we unregistered the rpc.
-	defer func() { returnResult(rpc, response, err) }()
+	var serverErr error
+	defer func() {
+		returnResult(rpc, response, err)
+		if err == nil {
+			// every call has its result; what is left to report is that the
+			// regionserver said, inside a multi response, that it is going down
+			err = serverErr
+		}
+	}()
 
 	if header.Exception != nil {
 		err = exceptionToError(header.Exception.GetExceptionClassName(),
@@ -601,7 +609,31 @@ func (c *client) receive(r io.Reader) (err error) {
 			return
 		}
 	}
+	if isMulti {
+		serverErr = serverErrorIn(response.(*pb.MultiResponse))
+	}
 	return
+}
+
+// serverErrorIn returns the first exception of a multi response that says
+// that the regionserver itself is not in service (see javaServerExceptions):
+// like such an exception in a response header, it fails the connection.
+func serverErrorIn(mr *pb.MultiResponse) error {
+	for _, rar := range mr.GetRegionActionResult() {
+		if e := rar.GetException(); e != nil {
+			if err, ok := exceptionToError(e.GetName(), string(e.Value)).(ServerError); ok {
+				return err
+			}
+		}
+		for _, roe := range rar.GetResultOrException() {
+			if e := roe.GetException(); e != nil {
+				if err, ok := exceptionToError(e.GetName(), string(e.Value)).(ServerError); ok {
+					return err
+				}
+			}
+		}
+	}
+	return nil
 }
 
 func exceptionToError(class, stack string) error {
